@@ -5,7 +5,7 @@
     is the registry *after* the repair `fix: skip expired one-time key bundles`; the behaviour
     before the repair is [get_onetime_asis]. *)
 From Coq Require Import List NArith.
-From PV Require Import Model.KeyRegistry Proofs.KeyRegistry.
+From PV Require Import Model.KeyRegistry Proofs.KeyRegistry Oracle.C38.
 Import ListNotations.
 Local Open Scope N_scope.
 
